@@ -94,7 +94,17 @@ fn deep_params(anchor: usize) -> Vec<RefParam> {
 }
 
 fn histories_over(run: &Run, bits: usize, refs: Vec<RefParam>, hist_len: usize, first_pool: usize) {
-    let real: Vec<Poplar1AggregationParam> = refs.iter().map(build).collect();
+    // building a reference parameter (non-empty, equal lengths, strictly increasing) must succeed
+    let mut real: Vec<Poplar1AggregationParam> = vec![];
+    for r in &refs {
+        match catch(|| Poplar1AggregationParam::try_from_prefixes(r.prefixes.iter().map(|b| IdpfInput::from_bools(b)).collect())) {
+            Ok(Ok(p)) => real.push(p),
+            other => {
+                run.fail(&format!("try_from_prefixes/rejected_valid/bits={bits}"), &format!("try_from_prefixes refused (or panicked on) an admissible list of {} prefixes of {} bits: {:?}", r.prefixes.len(), r.prefixes.first().map(|p| p.len()).unwrap_or(0), other.map(|x| x.map(|_| ()).map_err(|e| e.to_string()))), json!({"bits": bits, "prefixes": r.prefixes.len()}));
+                return;
+            }
+        }
+    }
     let n = refs.len();
     run.note(&format!("params_bits{bits}"), json!(n));
     // histories of length 0..=hist_len; the earlier entries come from the first `first_pool` params
